@@ -623,43 +623,128 @@ func c12R4(p *core.Program, r *core.Report) {
 	r.Check(!without, rule, f, "every line is classified", loop.Pos(), "each iteration appends to other-lines or to tags[key]", "a line can be dropped: an iteration ends without appending it to either result")
 	r.Check(!twice, rule, f, "no line is classified twice", loop.Pos(), "no path appends twice in one iteration", "a line can be appended to both results (e.g. the `continue` after the other-lines append was dropped)")
 
-	// the deciding branch
-	oneOfName := core.G("pkg/types.oneOf")
+	// the deciding branch: the one whose condition tests membership of line[0] in the markers
+	bc := &boundsCtx{f: f, g: g, info: info}
+	isMarkerTest := func(e ast.Expr) bool {
+		c, ok := ast.Unparen(e).(*ast.CallExpr)
+		if !ok {
+			return false
+		}
+		set, elem, ok := memberCall(p, f, c)
+		if !ok || core.VarOf(info, set) != markersP {
+			return false
+		}
+		ix, ok := ast.Unparen(elem).(*ast.IndexExpr)
+		return ok && core.VarOf(info, ix.X) == line && constIs(info, ix.Index, 0)
+	}
+	// emptiness atom: true/false of e says whether the line is empty
+	emptyAtom := func(e ast.Expr) (emptyWhenTrue bool, ok bool) {
+		if b, isBin := ast.Unparen(e).(*ast.BinaryExpr); isBin && (b.Op == token.EQL || b.Op == token.NEQ) {
+			if (core.VarOf(info, b.X) == line && constStrIs(info, b.Y, "")) || (core.VarOf(info, b.Y) == line && constStrIs(info, b.X, "")) {
+				return b.Op == token.EQL, true
+			}
+		}
+		x, op, c, ok := cmpConst(info, e)
+		if !ok || !bc.isLenOf(x, loop.Value) {
+			return false, false
+		}
+		switch {
+		case (op == token.EQL && c == 0) || (op == token.LSS && c == 1) || (op == token.LEQ && c == 0):
+			return true, true
+		case (op == token.NEQ && c == 0) || (op == token.GTR && c == 0) || (op == token.GEQ && c == 1):
+			return false, true
+		}
+		return false, false
+	}
+	var eval func(e ast.Expr, empty, marker bool) (bool, bool)
+	eval = func(e ast.Expr, empty, marker bool) (bool, bool) {
+		e = ast.Unparen(e)
+		switch x := e.(type) {
+		case *ast.UnaryExpr:
+			if x.Op == token.NOT {
+				v, ok := eval(x.X, empty, marker)
+				return !v, ok
+			}
+		case *ast.BinaryExpr:
+			if x.Op == token.LAND || x.Op == token.LOR {
+				l, lok := eval(x.X, empty, marker)
+				rr, rok := eval(x.Y, empty, marker)
+				if x.Op == token.LAND {
+					return l && rr, lok && rok
+				}
+				return l || rr, lok && rok
+			}
+		}
+		if isMarkerTest(e) {
+			return marker, true
+		}
+		if w, ok := emptyAtom(e); ok {
+			return empty == w, true
+		}
+		return false, false
+	}
+	hasMarkerTest := func(e ast.Expr) bool {
+		found := false
+		ast.Inspect(e, func(n ast.Node) bool {
+			if x, ok := n.(ast.Expr); ok && isMarkerTest(x) {
+				found = true
+			}
+			return !found
+		})
+		return found
+	}
 	var decide *cfgx.Branch
 	for _, br := range g.Branches() {
-		if len(core.CallsTo(info, br.Cond, true, oneOfName)) > 0 {
+		if br.Tag == nil && hasMarkerTest(br.Cond) {
 			b := br
 			decide = &b
 		}
 	}
 	if decide == nil {
-		r.Anchor(rule, "branch deciding on oneOf(markers, line[0])")
+		r.Anchor(rule, "branch deciding on the membership of line[0] in the markers")
 	} else {
-		e := ast.Unparen(decide.Cond)
-		neg := false
-		for {
-			if u, ok := e.(*ast.UnaryExpr); ok && u.Op == token.NOT {
-				neg = !neg
-				e = ast.Unparen(u.X)
-				continue
+		tagPts := g.Points(isTag)
+		tagEdge := -1
+		for k := 0; k < 2; k++ {
+			all := len(tagPts) > 0
+			for _, sp := range tagPts {
+				if !g.EdgeDominates(decide.B, k, sp) {
+					all = false
+				}
 			}
-			break
+			if all {
+				tagEdge = k
+			}
 		}
-		shape := false
-		if b, ok := e.(*ast.BinaryExpr); ok && b.Op == token.LAND {
-			bc := &boundsCtx{f: f, g: g, info: info}
-			lb, lok := bc.lenLowerBound(cfgx.Fact{Cond: ast.Unparen(b.X), Val: true}, loop.Value)
-			c := core.AsCall(info, b.Y, oneOfName)
-			if lok && lb == 1 && c != nil && len(c.Args) == 2 && core.VarOf(info, c.Args[0]) == markersP {
-				if ix, ok := ast.Unparen(c.Args[1]).(*ast.IndexExpr); ok && core.VarOf(info, ix.X) == line && constIs(info, ix.Index, 0) {
-					shape = true
+		// is the line already known to be non-empty when the branch is evaluated?
+		nonEmptyBefore := false
+		for _, fct := range g.FactsAt(cfgx.Point{B: decide.B, I: len(decide.B.Nodes) - 1}) {
+			if w, ok := emptyAtom(fct.Cond); ok && fct.Tag == nil && w != fct.Val {
+				nonEmptyBefore = true
+			}
+		}
+		shape := tagEdge >= 0
+		why := "the tags[key] append is not on one side of the marker test"
+		if shape {
+			for _, empty := range []bool{false, true} {
+				if empty && nonEmptyBefore {
+					continue
+				}
+				for _, marker := range []bool{false, true} {
+					v, ok := eval(decide.Cond, empty, marker)
+					if !ok {
+						shape, why = false, "the deciding condition mixes in something other than `line is empty` and `line[0] is a marker`"
+						continue
+					}
+					if (v == (tagEdge == 0)) != (!empty && marker) {
+						shape, why = false, "the tag/other decision is not equivalent to `len(line) != 0 && line[0] is one of the markers`"
+					}
 				}
 			}
 		}
-		r.Check(shape, rule, f, "tag test is exactly len(line) != 0 && oneOf(markers, line[0])", decide.Cond.Pos(), "deciding condition has that shape", "the tag/other decision is not exactly `len(line) != 0 && oneOf(markers, line[0])`")
-		tagEdge := 0
-		if neg {
-			tagEdge = 1
+		r.Check(shape, rule, f, "a line is a tag line iff it is non-empty and its first byte is a marker", decide.Cond.Pos(), "truth table of the deciding condition over {empty, marker}", why)
+		if tagEdge < 0 {
+			tagEdge = 0
 		}
 		for _, sp := range g.Points(isTag) {
 			r.Check(g.EdgeDominates(decide.B, tagEdge, sp), rule, f, "tags[key] append happens only for marker lines", sp.Node().Pos(), "dominated by the marker edge", "a line is stored as a tag without starting with a marker")
@@ -678,7 +763,13 @@ func c12R4(p *core.Program, r *core.Report) {
 			r.Check(okKV, rule, f, "key and value are splitKV(line[1:])", as.Pos(), "k, v := splitKV(line[1:]); tags[k] = append(tags[k], v)", "the tag's key/value are not the two results of splitKV on the line without its marker")
 		}
 		for _, sp := range g.Points(isOther) {
-			r.Check(g.EdgeDominates(decide.B, 1-tagEdge, sp), rule, f, "other-lines append happens only for non-marker lines", sp.Node().Pos(), "dominated by the non-marker edge", "a marker line can be returned as an ordinary comment line")
+			okOther := g.EdgeDominates(decide.B, 1-tagEdge, sp)
+			for _, fct := range g.FactsAt(sp) {
+				if w, ok := emptyAtom(fct.Cond); ok && fct.Tag == nil && w == fct.Val {
+					okOther = true // the line is empty here
+				}
+			}
+			r.Check(okOther, rule, f, "other-lines append happens only for non-marker lines", sp.Node().Pos(), "dominated by the non-marker edge (or by `line is empty`)", "a marker line can be returned as an ordinary comment line")
 		}
 	}
 	// the line is trimmed with cutset " " before the test
